@@ -12,6 +12,8 @@ Vocabulary
 """
 from __future__ import annotations
 
+import functools
+
 
 class _Marker:
     def __init__(self, name):
@@ -35,13 +37,14 @@ def escape(key: str) -> str:
     return key.replace("~", "~0").replace("/", "~1")
 
 
+@functools.lru_cache(maxsize=4096)
 def parse_pointer(text: str):
-    """'/a~1b/*' -> ['a/b', '*'];  '' -> [] (whole document)"""
+    """'/a~1b/*' -> ('a/b', '*');  '' -> () (whole document)"""
     if text == "":
-        return []
+        return ()
     if not text.startswith("/"):
         raise ValueError("pointer must start with '/': %r" % (text,))
-    return [unescape(t) for t in text[1:].split("/")]
+    return tuple(unescape(t) for t in text[1:].split("/"))
 
 
 def format_pointer(path) -> str:
@@ -49,6 +52,7 @@ def format_pointer(path) -> str:
 
 
 # ---------------------------------------------------------------------------------------- globs
+@functools.lru_cache(maxsize=65536)
 def glob_match(pat: str, s: str) -> bool:
     """'*' = any run of characters (also empty), '?' = exactly one character, everything else literal.
     Character classes are outside the alphabet of this check and are refused."""
@@ -168,6 +172,15 @@ def same_value(a, b) -> bool:
     return not isinstance(b, (dict, list)) and same_leaf(a, b)
 
 
+def clone(v):
+    """plain copy of a JSON value"""
+    if isinstance(v, dict):
+        return {k: clone(x) for k, x in v.items()}
+    if isinstance(v, list):
+        return [clone(x) for x in v]
+    return v
+
+
 def compatible(d1, d2) -> bool:
     """one schema: every path present in both has the same kind in both"""
     if kind(d1) != kind(d2):
@@ -226,12 +239,13 @@ def array_selection_satisfiable(old, f, sel):
     return True
 
 
-def judge_fragment(old, f, acl, r):
+def judge_fragment(old, f, acl, r, sel=None):
     """Judge r = merge(old, f, acl).  Returns (status, problems, info):
     status 'unsat' = the statement cannot be met by any result (array hole), nothing judged;
     problems = list of {'code', 'path', ...} - empty iff the three clauses hold;
     info = {'selected': n, 'kind_mismatch': [...]} (not part of the verdict)."""
-    sel = selection(acl, f, old)
+    if sel is None:
+        sel = selection(acl, f, old)
     info = {"selected": len(sel), "kind_mismatch": []}
     if not array_selection_satisfiable(old, f, sel):
         return "unsat", [], info
